@@ -390,6 +390,91 @@ async fn merge_patches_case(case: &Value) -> Value {
     }
 }
 
+/// C20: apply a history to a fresh SearchIndex and compare its counters with a recount of documents()
+fn search_history(case: &Value) -> Value {
+    use sos_search::SearchIndex;
+    use sos_vault::secret::{SecretMeta, SecretType};
+    use std::collections::{HashMap, HashSet};
+    let mut idx = SearchIndex::new();
+    if let Some(a) = case["archive"].as_u64() {
+        idx.set_archive_id(Some(uuid_of(a)));
+    }
+    let archive = case["archive"].as_u64().map(uuid_of);
+    let secret: Secret = Default::default();
+    let mut live: HashSet<(uuid::Uuid, uuid::Uuid)> = HashSet::new();
+    for (n, o) in case["ops"].as_array().unwrap().iter().enumerate() {
+        let f = uuid_of(o["folder"].as_u64().unwrap());
+        match o["op"].as_str().unwrap() {
+            "add" | "update" => {
+                let i = uuid_of(o["id"].as_u64().unwrap());
+                let a = &o["attrs"];
+                let kind = if a["kind"].as_str() == Some("Account") { SecretType::Account } else { SecretType::Note };
+                let mut meta = SecretMeta::new(format!("Lop{}", n), kind);
+                if a["tag"].as_bool() == Some(true) {
+                    let mut t = HashSet::new();
+                    t.insert("t".to_string());
+                    meta.set_tags(t);
+                }
+                meta.set_favorite(a["favorite"].as_bool() == Some(true));
+                if o["op"].as_str() == Some("add") {
+                    idx.add(&f, &i, &meta, &secret);
+                } else {
+                    idx.update(&f, &i, &meta, &secret);
+                }
+                live.insert((f, i));
+            }
+            "remove" => {
+                let i = uuid_of(o["id"].as_u64().unwrap());
+                idx.remove(&f, &i);
+                live.remove(&(f, i));
+            }
+            "remove_vault" => {
+                idx.remove_vault(&f);
+                live.retain(|k| k.0 != f);
+            }
+            k => panic!("unknown op {}", k),
+        }
+    }
+    let mut mismatch: Vec<String> = vec![];
+    let docs: HashSet<(uuid::Uuid, uuid::Uuid)> = idx.documents().values().map(|d| (*d.folder_id(), *d.id())).collect();
+    if docs != live || idx.documents().len() != live.len() {
+        mismatch.push("documents".into());
+    }
+    let mut rv: HashMap<uuid::Uuid, usize> = HashMap::new();
+    let mut rk: HashMap<u8, usize> = HashMap::new();
+    let mut rt: HashMap<String, usize> = HashMap::new();
+    let mut rf = 0usize;
+    for d in idx.documents().values() {
+        *rv.entry(*d.folder_id()).or_insert(0) += 1;
+        if Some(*d.folder_id()) != archive {
+            *rk.entry(d.meta().kind().into()).or_insert(0) += 1;
+        }
+        for t in d.meta().tags() {
+            *rt.entry(t.clone()).or_insert(0) += 1;
+        }
+        if d.meta().favorite() {
+            rf += 1;
+        }
+    }
+    let c = idx.statistics().count();
+    let keys: HashSet<_> = c.vaults().keys().chain(rv.keys()).cloned().collect();
+    if keys.iter().any(|k| c.vaults().get(k).copied().unwrap_or(0) != rv.get(k).copied().unwrap_or(0)) {
+        mismatch.push("folders".into());
+    }
+    let keys: HashSet<_> = c.kinds().keys().chain(rk.keys()).cloned().collect();
+    if keys.iter().any(|k| c.kinds().get(k).copied().unwrap_or(0) != rk.get(k).copied().unwrap_or(0)) {
+        mismatch.push("kinds".into());
+    }
+    let keys: HashSet<_> = c.tags().keys().chain(rt.keys()).cloned().collect();
+    if keys.iter().any(|k| c.tags().get(k).copied().unwrap_or(0) != rt.get(k).copied().unwrap_or(0)) {
+        mismatch.push("tags".into());
+    }
+    if c.favorites() != rf {
+        mismatch.push("favorites".into());
+    }
+    json!({"outcome":"ok","mismatch":mismatch,"folders":format!("{:?}", c.vaults()),"recount":format!("{:?}", rv)})
+}
+
 static TMP_COUNTER: std::sync::atomic::AtomicUsize = std::sync::atomic::AtomicUsize::new(0);
 
 fn tmp_path(tag: &str) -> std::path::PathBuf {
@@ -454,6 +539,7 @@ pub async fn run(case: &Value) -> Value {
     let op = case.get("op").and_then(|v| v.as_str()).unwrap_or("");
     match op {
         "compact" => compact_case(case).await,
+        "search_history" => search_history(case),
         "merge_patches" => merge_patches_case(case).await,
         "vault_step" => vault_step(case).await,
         "format_stream" => {
